@@ -1668,3 +1668,66 @@ def check_bisection(chk, prog, fns, noreturn, rule="Q1"):
     chk.rule(rule, "a bisection loop is left only through its condition or a match (an extra break is redundant with the condition)")
     nq, nundq, _sq = run_cap(chk, prog, bis_fns, rule=rule, noreturn=noreturn, cap_factory=bfactory, kinds={"exit"})
     return len(bis_fns), nundq
+
+
+# --------------------------------------------------------------------------- A1 assertions are observers
+def _stores_anything(g, prog, depth=0, seen=None):
+    """does g (a function of the library) store to memory, a global or through a parameter - itself or through what it calls?"""
+    from .models import PURE_LIBC, MESSAGE_FUNCS
+    seen = seen if seen is not None else set()
+    if g is None or g.body is None or g.name in seen or depth > 3:
+        return g is None or g.body is None
+    seen.add(g.name)
+    for x in walk(g.body):
+        if x.get("k") == "assign" or (x.get("k") == "un" and x.get("op") in ("++", "--")):
+            t = X.strip(x["ch"][0])
+            if t is not None and not (t.get("k") == "ref" and t.get("rk") == "local"):
+                if not any(m_.startswith("b:D_") or m_.startswith("b:DPRINTF") for m_ in x.get("m", [])):
+                    return True
+        if x.get("k") == "call":
+            cn = X.callee_name(x)
+            if cn is None:
+                if X.dispatch_slot(x) not in ("comp", "type", "show", None):
+                    return True
+                continue
+            if cn in PURE_LIBC or cn in MESSAGE_FUNCS:
+                continue
+            h = prog.fn(cn)
+            if h is None:
+                return True
+            if _stores_anything(h, prog, depth + 1, seen):
+                return True
+    return False
+
+
+def check_assert_purity(chk, prog, units, rule="A1"):
+    """The argument of an ASSERT / REQUIRE is only ever *observed*: with debugging compiled out (DEBUG=0) the macro expands to
+    nothing, so an assignment, an increment or a call that stores something inside the argument silently disappears from that
+    build - a node whose element is never set, a result that is never fetched."""
+    n = 0
+    for uname in units:
+        u = prog.units.get(uname)
+        if u is None:
+            continue
+        for f in u.functions.values():
+            if f.body is None:
+                continue
+            for x in walk(f.body):
+                ms = x.get("m") or []
+                if not any(re.match(r"a:(ASSERT|REQUIRE)", m_) for m_ in ms):
+                    continue
+                bad = None
+                if x.get("k") == "assign" or (x.get("k") == "un" and x.get("op") in ("++", "--")):
+                    bad = "stores %s" % X.render(x)[:40]
+                elif x.get("k") == "call":
+                    cn = X.callee_name(x)
+                    g = prog.fn(cn) if cn else None
+                    if cn is not None and g is not None and _stores_anything(g, prog):
+                        bad = "calls %s(), which stores" % cn
+                if x.get("k") in ("assign", "call") or (x.get("k") == "un" and x.get("op") in ("++", "--")):
+                    n += 1
+                    chk.ob(rule, f.name, "assert-argument-observes:" + canon(f, x)[:36], bad is None, loc=f.loc(x),
+                           detail="%s: the argument of an assertion %s: with debugging compiled out (DEBUG=0) the assertion expands to "
+                                  "nothing and the effect is gone from the function" % (f.name, bad),
+                           proof="no store in the assertion's argument")
+    return n
